@@ -335,9 +335,13 @@ def normal_form(expr, gens=None, extra_relations=(), cos_nonneg=(), full=False, 
     return num, Rg
 
 
-def check_zero(expr, domain=None, seed=0, n_points=3, extra_relations=(), cos_nonneg=(), budget_s=None):
+N_POINTS = 3
+
+
+def check_zero(expr, domain=None, seed=0, n_points=None, extra_relations=(), cos_nonneg=(), budget_s=None):
     """Decide expr == 0 on the domain.  Verdict.status in proved/refuted/undecided."""
     t0 = time.time()
+    n_points = N_POINTS if n_points is None else n_points
     expr = sp.sympify(expr)
     if expr == 0:
         return Verdict("proved", "syntactic", time.time() - t0)
